@@ -37,6 +37,10 @@ def handle (op : String) (j : Json) : Option (R Json) :=
       let w ← startOf j
       let ops ← (← getArr j "ops").mapM opOfJson
       pure (okJ [("trace", Json.arr ((codeRun w ops.toList).map resJ).toArray)])
+  | "c08.fft_step" => some do
+      let w ← startOf j
+      let t ← getBool j "tilt"
+      pure (okJ [("trace", Json.arr #[resJ (codePropagateFft t w)])])
   | "c08.class_ptype" => some do
       let s ← getStr j "cls"
       match PlaneClass.ofName? s with
